@@ -682,4 +682,98 @@ theorem exitClean_step (c : Cfg) (hmb : 0 < c.maxBatch) {s : St} (a : Act)
     · exact he
   | sysdown => exact he
 
+
+/-! ### getCoalescer: at most one coalescer per destination, every caller gets that one -/
+namespace GC
+open GoaktVerif.Model.C27.GC
+
+def GInv (s : GSt) : Prop :=
+  s.created ≤ 1 ∧ (s.map = none ↔ s.created = 0) ∧ (∀ c, s.map = some c → c = 0) ∧
+  (∀ th ∈ s.threads, ∀ c, th.got = some c → c = 0) ∧
+  (∀ t, s.mu = some (t, .create) → s.map = none)
+
+theorem ginv_init (n : Nat) : GInv (ginit n) := by
+  refine ⟨by simp [ginit], by simp [ginit], by simp [ginit], ?_, by simp [ginit]⟩
+  intro th hth c hc
+  simp only [ginit, List.mem_replicate] at hth
+  rw [hth.2] at hc; simp at hc
+
+theorem mem_set_cases {α : Type} {l : List α} {i : Nat} {a x : α} (h : x ∈ l.set i a) : x ∈ l ∨ x = a :=
+  List.mem_or_eq_of_mem_set h
+
+theorem ginv_step (s : GSt) (a : GAct) (h : GInv s) : GInv (gstep true s a) := by
+  obtain ⟨h1, h2, h3, h4, h5⟩ := h
+  cases a with
+  | look t =>
+    simp only [gstep]
+    split
+    · rename_i th hth
+      split
+      · exact ⟨h1, h2, h3, h4, h5⟩
+      · split
+        · rename_i c hc
+          refine ⟨h1, h2, h3, ?_, h5⟩
+          intro x hx c' hc'
+          rcases mem_set_cases hx with hx | hx
+          · exact h4 x hx c' hc'
+          · subst hx; simp at hc'; subst hc'; exact h3 c hc
+        · refine ⟨h1, h2, h3, ?_, h5⟩
+          intro x hx c' hc'
+          rcases mem_set_cases hx with hx | hx
+          · exact h4 x hx c' hc'
+          · subst hx; exact h4 th (List.mem_of_getElem? hth) c' hc'
+    · exact ⟨h1, h2, h3, h4, h5⟩
+  | acquire t =>
+    simp only [gstep]
+    split
+    · rename_i th hth hmu
+      split
+      · exact ⟨h1, h2, h3, h4, h5⟩
+      · refine ⟨h1, h2, h3, ?_, ?_⟩
+        · intro x hx c' hc'
+          rcases mem_set_cases hx with hx | hx
+          · exact h4 x hx c' hc'
+          · subst hx; exact h4 th (List.mem_of_getElem? hth) c' hc'
+        · intro t' ht'; simp at ht'
+    · exact ⟨h1, h2, h3, h4, h5⟩
+  | cs =>
+    simp only [gstep]
+    split
+    · rename_i t hmu
+      split
+      · rename_i c hc
+        refine ⟨h1, h2, h3, ?_, ?_⟩
+        · intro x hx c' hc'
+          rcases mem_set_cases hx with hx | hx
+          · exact h4 x hx c' hc'
+          · subst hx; simp at hc'; subst hc'; exact h3 c hc
+        · intro t' ht'; simp at ht'
+      · rename_i hnone
+        exact ⟨h1, h2, h3, h4, fun _ _ => hnone⟩
+    · rename_i t hmu
+      have hmap := h5 t hmu
+      have hc0 : s.created = 0 := h2.mp hmap
+      refine ⟨by simp [hc0], by simp, by simp [hc0], ?_, by simp⟩
+      intro x hx c' hc'
+      rcases mem_set_cases hx with hx | hx
+      · exact h4 x hx c' hc'
+      · subst hx; simp at hc'; omega
+    · rename_i t hmu
+      split
+      · rename_i th hth
+        refine ⟨h1, h2, h3, ?_, by simp [setThread]⟩
+        intro x hx c' hc'
+        rcases mem_set_cases hx with hx | hx
+        · exact h4 x hx c' hc'
+        · subst hx; exact h4 th (List.mem_of_getElem? hth) c' hc'
+      · exact ⟨h1, h2, h3, h4, by simp⟩
+    · exact ⟨h1, h2, h3, h4, h5⟩
+
+theorem ginv_run (acts : List GAct) (s : GSt) (h : GInv s) : GInv (grun true s acts) := by
+  induction acts generalizing s with
+  | nil => exact h
+  | cons a as ih => exact ih _ (ginv_step s a h)
+
+end GC
+
 end GoaktVerif.C27
